@@ -153,7 +153,7 @@ func drawProgram(t *rapid.T, c *pkit.Ctx) *built {
 			case 0:
 				sig := env.DrawSig(t, 2, 5, 3, []string{"named", "unnamed", "blank", "hostile", "minted"})
 				if used.Claim("sig|" + sig.TypeKey()) {
-					e2.AddPlumb(p, used, fs, sig, sfx, -1)
+					e2.AddPlumb(p, used, fs, sig, sfx, -1, rapid.Bool().Draw(t, "twin-site"))
 					b.calls = append(b.calls, "plumb:"+sig.FuncType(p.T))
 					b.features["functional:plumb"] = true
 				}
